@@ -199,6 +199,17 @@ func c12Run(in []string) (obs []string) {
 			}
 			b.Set(idx.ValidatorID(id), s)
 		}
+		sum, allWord := new(big.Int), true
+		for _, w := range b {
+			sum.Add(sum, w)
+			allWord = allWord && w.IsUint64()
+		}
+		if allWord && len(b) > 0 && !sum.IsUint64() {
+			vu.Stat("G_stakes_fit_uint64_total_does_not")
+		}
+		if len(b) >= 20 {
+			vu.Stat("G_20_or_more_stakes")
+		}
 		tb := b.TotalWeight().BitLen()
 		switch {
 		case tb > 64:
@@ -244,6 +255,36 @@ func c12Shuffle(r *rand.Rand, pairs []string) []string {
 		out = append(out, pairs[2*i], pairs[2*i+1])
 	}
 	return out
+}
+
+// values at the byte-width boundaries of uint32 (RLP integer lengths, index widths)
+func c12Boundary32(r *rand.Rand) uint64 {
+	bs := []uint64{0, 1, 127, 128, 255, 256, 65535, 65536, 1<<24 - 1, 1 << 24, 1<<31 - 1, 1 << 31, 1<<32 - 1}
+	return bs[r.Intn(len(bs))]
+}
+
+func c12RandLarge(r *rand.Rand, tier string) []string {
+	sizes := []int{20, 25, 31, 32, 33, 40, 63, 64, 65, 127, 128, 129}
+	n := sizes[r.Intn(len(sizes))]
+	if tier == "thorough" && r.Intn(12) == 0 {
+		n = []int{255, 256, 257, 300, 600}[r.Intn(5)]
+	}
+	var pairs []string
+	for i := 0; i < n; i++ {
+		id := uint64(r.Uint32())
+		if r.Intn(4) == 0 {
+			id = c12Boundary32(r)
+		}
+		w := uint64(1 + r.Intn(0x7FFFFFFF/n))
+		switch r.Intn(4) {
+		case 0:
+			w = uint64(1 + r.Intn(3)) // ties
+		case 1:
+			w = c12Boundary32(r) % uint64(0x7FFFFFFF/n)
+		}
+		pairs = append(pairs, vu.U64(id), vu.U64(w))
+	}
+	return pairs
 }
 
 func c12RandSmall(r *rand.Rand) []string {
@@ -321,6 +362,74 @@ func c12RandBig(r *rand.Rand) []string {
 	return pairs
 }
 
+// stake families aimed at machine-word boundaries of the big-stake arithmetic: every stake fits
+// a word (2^32 / 2^64 / 2^128) but the total does not, stakes at 2^63 / 2^64 -1,0,+1, many
+// medium stakes, mixes of word-sized and larger stakes where no single stake dominates.
+func c12WordFamilies(r *rand.Rand) []string {
+	one := big.NewInt(1)
+	pow := func(k uint) *big.Int { return new(big.Int).Lsh(one, k) }
+	var stakes []*big.Int
+	add := func(b *big.Int) { stakes = append(stakes, new(big.Int).Set(b)) }
+	words := []uint{32, 64, 64, 128, 256, 512}
+	w := words[r.Intn(len(words))]
+	switch r.Intn(8) {
+	case 0: // k stakes just below the word, the sum crosses it
+		for k, m := 0, 2+r.Intn(4); k < m; k++ {
+			add(new(big.Int).Sub(pow(w), big.NewInt(int64(1+r.Intn(3)))))
+		}
+	case 1: // halves and thirds of the word, +-1: the sum straddles the word exactly
+		m := 2 + r.Intn(3)
+		for k := 0; k < m; k++ {
+			b := new(big.Int).Div(pow(w), big.NewInt(int64(m)))
+			add(b.Add(b, big.NewInt(int64(r.Intn(3))-1)))
+		}
+		if r.Intn(2) == 0 {
+			add(big.NewInt(int64(1 + r.Intn(5))))
+		}
+	case 2: // token amounts in wei: 10, 12, 15 ... tokens = n * 10^18 (all below 2^64, sum above)
+		e18 := new(big.Int).Exp(big.NewInt(10), big.NewInt(18), nil)
+		for k, m := 0, 2+r.Intn(5); k < m; k++ {
+			add(new(big.Int).Mul(e18, big.NewInt(int64(1+r.Intn(18)))))
+		}
+	case 3: // many medium stakes (20..120), each far below the word, total above it
+		m := 20 + r.Intn(101)
+		for k := 0; k < m; k++ {
+			b := new(big.Int).Rand(r, pow(w-3))
+			add(b.Add(b, pow(w-4)))
+		}
+	case 4: // around 2^63 and 2^64 exactly
+		for k, m := 0, 2+r.Intn(3); k < m; k++ {
+			b := pow(63 + uint(r.Intn(2)))
+			add(b.Add(b, big.NewInt(int64(r.Intn(3))-1)))
+		}
+	case 5: // word-sized stakes mixed with slightly larger ones, none dominating
+		for k, m := 0, 3+r.Intn(5); k < m; k++ {
+			b := new(big.Int).Rand(r, pow(w))
+			if k%2 == 0 {
+				b.Add(b, pow(w))
+			}
+			add(b)
+		}
+	case 6: // one stake above the word plus many below it that together add another word
+		add(new(big.Int).Add(pow(w), big.NewInt(int64(r.Intn(5)))))
+		for k, m := 0, 4+r.Intn(30); k < m; k++ {
+			b := new(big.Int).Div(pow(w), big.NewInt(int64(3+r.Intn(4))))
+			add(b)
+		}
+	default: // totals straddling 2^32 / 2^64 / 2^128 with many equal parts
+		m := 5 + r.Intn(60)
+		for k := 0; k < m; k++ {
+			b := new(big.Int).Div(pow(w), big.NewInt(int64(m)))
+			add(b.Add(b, big.NewInt(int64(r.Intn(2)))))
+		}
+	}
+	var pairs []string
+	for i, b := range stakes {
+		pairs = append(pairs, vu.U64(uint64(100+i)), b.String())
+	}
+	return pairs
+}
+
 func init() {
 	bmodes := []string{"set", "arr", "eq", "copy", "bld"}
 	vu.Register("C12", &vu.Prop{
@@ -348,8 +457,21 @@ func init() {
 				depth = 4
 			}
 			rec(nil, depth)
+			if tier == "thorough" { // RLP payload above 65535 bytes: 3-byte length prefix, 6100 validators
+				var huge []string
+				for k := 0; k < 6100; k++ {
+					huge = append(huge, vu.U64(uint64(1000000+13*k)), vu.U64(uint64(100000+r.Intn(200000))))
+				}
+				in := append([]string{"R", "plain"}, huge...)
+				emit(append(in, ";", "1000000", "1000013", "7")...)
+				vu.Stat("huge_set_6100")
+			}
 			for i := 0; i < n; i++ {
 				pairs := c12RandSmall(r)
+				if r.Intn(14) == 0 { // sets of 20..129 (thorough ..600) validators, ids / weights at byte-width boundaries
+					pairs = c12RandLarge(r, tier)
+					vu.Stat("large_set_20_or_more")
+				}
 				switch r.Intn(5) {
 				case 0, 1: // the same multiset inserted in several orders, through every constructor
 					for k := 0; k < 3; k++ {
@@ -371,6 +493,13 @@ func init() {
 				case 3:
 					c12Emit(emit, []string{"D", "-"}, pairs)
 				default:
+					if r.Intn(2) == 0 {
+						wp := c12WordFamilies(r)
+						c12Emit(emit, []string{"G"}, wp)
+						if r.Intn(3) == 0 {
+							c12Emit(emit, []string{"G"}, c12Shuffle(r, wp))
+						}
+					}
 					bp := c12RandBig(r)
 					c12Emit(emit, []string{"G"}, bp)
 					c12Emit(emit, []string{"G"}, c12Shuffle(r, bp))
